@@ -18,6 +18,7 @@ from .. import (
     NamedType,
     NonNullType,
     ObjectType,
+    ScalarType,
     Schema,
     UnionType,
     is_introspection_type,
@@ -213,10 +214,27 @@ def _find_changed_types(old: Schema, new: Schema) -> Iterator[SchemaChange]:
         except KeyError:
             pass
         else:
-            if old_type.__class__ != new_type.__class__:
-                yield TypeChangedKind(
-                    name, old_type.__class__, new_type.__class__
-                )
+            old_kind, new_kind = _kind_of(old_type), _kind_of(new_type)
+            if old_kind != new_kind:
+                yield TypeChangedKind(name, old_kind, new_kind)
+
+
+_KINDS = (
+    ScalarType,
+    ObjectType,
+    InterfaceType,
+    UnionType,
+    EnumType,
+    InputObjectType,
+)  # type: Tuple[Type[NamedType], ...]
+
+
+def _kind_of(type_: NamedType) -> Type[NamedType]:
+    # Instances of a subclass (e.g. of ``ScalarType``) are of the same kind.
+    for kind in _KINDS:
+        if isinstance(type_, kind):
+            return kind
+    return type_.__class__
 
 
 def _diff_union_types(old: Schema, new: Schema) -> Iterator[SchemaChange]:
